@@ -301,7 +301,7 @@ def _replay_profile_plain(d):
     return (not p), "known %s read %s delta %d: %s" % (i["known"], i["read"], i["delta"], p or "consistent with the definitions")
 
 
-@bounded("C13.profile_semantics", ["C13", "C19"], note="OverlappingFeaturesProfileConstructor exon and intron profiles on ALL pairs of "
+@bounded("C13.profile_semantics", ["C13", "C19"], shards=14, note="OverlappingFeaturesProfileConstructor exon and intron profiles on ALL pairs of "
          "sorted block lists (<= 3 read blocks x <= 3 annotated exons over coordinates 1..13 in steps, delta in {0,1,2}), checked against "
          "the property's definitions: 1 only with a delta-match, -1 only where the read's span covers the feature's position, an intron "
          "contained in the read span is never left unmarked")
@@ -319,6 +319,9 @@ def c13_profiles(tier, rng):
     if tier == "quick":
         lists_known = rng.sample(lists_known, 220)
         lists_read = rng.sample(lists_read, 60)
+    else:
+        # exhaustive enumeration split over parallel shards
+        lists_known = lists_known[getattr(rng, "shard_index", 0)::getattr(rng, "shard_count", 1)]
     cases = 0
     for known in lists_known:
         for read in lists_read:
@@ -337,6 +340,8 @@ def c13_profiles(tier, rng):
     if tier == "quick":
         sets_ = rng.sample(sets_, min(len(sets_), 400))
         reads_ = rng.sample(reads_, min(len(reads_), 40))
+    else:
+        sets_ = sets_[getattr(rng, "shard_index", 0)::getattr(rng, "shard_count", 1)]
     for known in sets_:
         for read in reads_:
             for delta in (0, 1):
